@@ -157,6 +157,27 @@ fn run_b(c: &Case) -> Result<Vec<u8>, Fail> {
     guarded("to_writer", || a.write())?.map_err(|e| Fail::new("C16/write-err", format!("{e}")))
 }
 
+/// Library calls that have nothing to do with the archive under test (results ignored, panics contained).
+fn unrelated_activity(seed: u64, n: usize) {
+    use pmtiles2::util::WriteDirsOverflowStrategy;
+    let _ = crate::engine::catch(|| {
+        let es = super::c06::entropy_entries(seed ^ 0xac71, n);
+        let entries: Vec<pmtiles2::Entry> = Vec::from(super::c05::to_lib(&es));
+        for start in [Some(8192usize), Some(100_000), Some(1), None] {
+            let mut out = std::io::Cursor::new(Vec::new());
+            let _ = pmtiles2::util::write_directories(&mut out, &entries[..if start == Some(1) { entries.len().min(300) } else { entries.len() }], pmtiles2::Compression::None, Some(WriteDirsOverflowStrategy::OnlyLeafPointers { start_size: start }));
+            let mut out = futures::io::Cursor::new(Vec::new());
+            let _ = futures::executor::block_on(pmtiles2::util::write_directories_async(&mut out, &entries[..if start == Some(1) { entries.len().min(300) } else { entries.len() }], pmtiles2::Compression::GZip, Some(WriteDirsOverflowStrategy::OnlyLeafPointers { start_size: start })));
+        }
+        let other = logical::large(n * 5 / 6 + (seed % 7) as usize * 30, seed ^ 0x0f0f, 1 + (seed % 4) as u8);
+        let _ = super::c01::write_logical(&other, seed % 2 == 0);
+        let blob = pmtiles2::util::compress_all(pmtiles2::Compression::ZStd, &seed.to_le_bytes());
+        if let Ok(b) = blob {
+            let _ = pmtiles2::util::decompress_all(pmtiles2::Compression::ZStd, &b);
+        }
+    });
+}
+
 fn first_diff(a: &[u8], b: &[u8]) -> String {
     let at = a.iter().zip(b).position(|(x, y)| x != y).unwrap_or(a.len().min(b.len()));
     format!("lengths {} vs {}, first difference at byte {at}", a.len(), b.len())
@@ -165,6 +186,13 @@ fn first_diff(a: &[u8], b: &[u8]) -> String {
 fn check(c: &Case) -> CaseResult {
     let l = &c.l;
     let a_bytes = super::c01::write_logical(l, c.asyncw).map_err(|f| Fail::new(f.sig.replace("C01/", "C16/"), f.msg))?;
+    // between the two histories the process does unrelated work with the library (other directories with other
+    // leaf sizes, another archive, the codecs): nothing of it may show in the bytes of history B
+    if l.tiles.len() > 4096 {
+        unrelated_activity(u64::from(c.seed2), 6000);
+    } else if c.seed2 % 8 == 0 {
+        unrelated_activity(u64::from(c.seed2), 200);
+    }
     // 1. a second, differently ordered history with detours / reopen
     let b_bytes = run_b(c)?;
     if a_bytes != b_bytes {
@@ -294,7 +322,7 @@ pub fn run(ctx: &Ctx) {
         "logical archive recipes (as C01) x a second history reaching the same state: another insertion permutation, detours (junk id added and removed, wrong content \
          first, the same content under another id that is removed again, remove and re-add), optional save+reopen in the middle (tiles reader-backed on one side only; the intermediate save optionally under another internal compression and tile type, \
          the original settings restored afterwards) x 4 \
-         internal compressions x sync / async writer (each against itself); the same history twice; rewrite of a just-read archive; foreign layouts (C03's generator: undeduplicated, reverse-ordered, prefix-overlapping tile data, runs, leaves) \
+         internal compressions x sync / async writer (each against itself); the same history twice; unrelated library work between the two histories (other directories with other leaf sizes, another archive, the codecs); rewrite of a just-read archive; foreign layouts (C03's generator: undeduplicated, reverse-ordered, prefix-overlapping tile data, runs, leaves) \
          opened and saved against the same tiles, metadata and settings built in memory; large archives with leaf spill; and \
          cross-process: the recipe is serialised by two freshly spawned `vcheck emit` processes. Oracle: byte equality. Non-trivial: >= 3 tiles with a duplicated content and \
          histories that differ in more than order, or a cross-process case; distinct by digest.",
